@@ -153,6 +153,11 @@ def _xh_sqlite_get_records(cursor, sessionid=None, limit=None, newest_first=Fals
 
 
 def _xh_sqlite_delete_records(cursor, size_to_keep):
+    if size_to_keep == 0:
+        # min(tsb) over an empty ``LIMIT 0`` sub-select is NULL and
+        # ``tsb < NULL`` matches nothing: keeping 0 commands deletes them all.
+        result = cursor.execute(f"DELETE FROM {XH_SQLITE_TABLE_NAME}")
+        return result.rowcount
     sql = "SELECT min(tsb) FROM ("
     sql += f"SELECT tsb FROM {XH_SQLITE_TABLE_NAME} ORDER BY tsb DESC "
     sql += "LIMIT %d)" % size_to_keep
